@@ -309,6 +309,75 @@ class FnText:
         pos = self.stok(k).start
         self.edits.append((pos, pos, '\n' + text.rstrip() + '\n', origin))
 
+    def nocontinue(self, n):
+        """T11: Verus rejects `continue` inside `for`.  In the body of the n-th loop, at the top level of
+        the body:  `let PAT = E else { continue; }; REST`  ->  `if let PAT = E { REST }`   and
+        `if C { continue; } REST`  ->  `if !(C) { REST }`.  Same evaluation order, same scopes."""
+        ls = self.loops()
+        if n > len(ls):
+            raise Unsupported(f'{self.name}: @nocontinue {n}: function has {len(ls)} loops')
+        k = self.loop_body_open(ls[n - 1])
+        c = self.match(k)
+        depth = 0
+        i = k
+        closes = 0
+        while i < c:
+            t = self.stok(i)
+            if t.kind == 'punct' and t.text in '([{':
+                depth += 1
+            elif t.kind == 'punct' and t.text in ')]}':
+                depth -= 1
+            elif depth == 1 and t.kind == 'ident' and t.text == 'let':
+                # find `else { continue ; } ;` at depth 1 before the statement ends
+                j = i + 1
+                d2 = 0
+                found = None
+                while j < c:
+                    tj = self.stok(j)
+                    if tj.kind == 'punct' and tj.text in '([{':
+                        d2 += 1
+                    elif tj.kind == 'punct' and tj.text in ')]}':
+                        d2 -= 1
+                    elif d2 == 0 and tj.kind == 'punct' and tj.text == ';':
+                        break
+                    elif d2 == 0 and tj.kind == 'ident' and tj.text == 'else':
+                        seq = [self.stok(j + q).text for q in range(1, 6)]
+                        if seq == ['{', 'continue', ';', '}', ';']:
+                            found = j
+                        break
+                    j += 1
+                if found is not None:
+                    self.edits.append((t.start, t.start, 'if ', ('T11', 'let-else-continue')))
+                    self.edits.append((self.stok(found).start, self.stok(found + 5).end, '{', ('T11', 'let-else-continue')))
+                    closes += 1
+                    i = found + 6
+                    continue
+            elif depth == 1 and t.kind == 'ident' and t.text == 'if' and self.stok(i - 1).text != 'else':
+                # `if C { continue; }` with no else
+                j = i + 1
+                d2 = 0
+                while j < c:
+                    tj = self.stok(j)
+                    if tj.kind == 'punct' and tj.text in '([':
+                        d2 += 1
+                    elif tj.kind == 'punct' and tj.text in ')]':
+                        d2 -= 1
+                    elif d2 == 0 and tj.kind == 'punct' and tj.text == '{':
+                        break
+                    j += 1
+                seq = [self.stok(j + q).text for q in range(1, 4)]
+                if seq == ['continue', ';', '}'] and self.stok(j + 4).text != 'else':
+                    self.edits.append((t.end, t.end, ' !(', ('T11', 'if-continue')))
+                    self.edits.append((self.stok(j).start, self.stok(j + 3).end, ') {', ('T11', 'if-continue')))
+                    closes += 1
+                    i = j + 4
+                    continue
+            i += 1
+        if closes == 0:
+            raise Unsupported(f'{self.name}: @nocontinue {n}: no top-level continue pattern found')
+        pos = self.stok(c).start
+        self.edits.append((pos, pos, '}' * closes + '\n', ('T11', 'close')))
+
     def add_loopend(self, n, text, origin):
         ls = self.loops()
         if n > len(ls):
@@ -647,10 +716,18 @@ def process_extract(block_text, tmpl_path, tmpl_line, report):
             mm = re.match(r'(\d+)\s+(.*)$', arg, re.S)
             lets[int(mm.group(1))] = mm.group(2)
     for d, arg, payload, ln in items:
+        if d == 'nocontinue':
+            ft.nocontinue(int(arg))
+    for d, arg, payload, ln in items:
         origin = ('inj', f'{os.path.basename(tmpl_path)}:{ln} @{d} {arg}'.strip())
         info['directives'].append(f'@{d} {arg}'.strip())
         if d == 'tags':
             info['tags'] = arg.split()
+        elif d == 'nocontinue':
+            pass
+        elif d == 'closurelet':
+            mm = re.match(r'(\d+)\s+(.*)$', arg, re.S)
+            ft.closure_let(int(mm.group(1)), mm.group(2), origin)
         elif d == 'recv':
             ft.recv_mut()
         elif d == 'rename':
@@ -691,9 +768,6 @@ def process_extract(block_text, tmpl_path, tmpl_line, report):
             m = re.match(r'(\d+)\s+(.*)$', arg + ('\n' + payload if payload.strip() else ''), re.S)
             ft.annotate_closure(int(m.group(1)), m.group(2), origin, lets.get(int(m.group(1)), ''))
             info['clauses'] += count_clauses(m.group(2))
-        elif d == 'closurelet':
-            m = re.match(r'(\d+)\s+(.*)$', arg, re.S)
-            ft.closure_let(int(m.group(1)), m.group(2), origin)
         elif d == 'return':
             ft.wrap_return('tail' if arg == 'tail' else int(arg), payload, origin)
             info['clauses'] += count_clauses(payload)
@@ -792,6 +866,73 @@ def gen_stub(unit, fn_name):
     raise Unsupported(f'@stub: unit {unit} has no extract block for {fn_name}')
 
 
+def gen_item(rel, kind, name, extra=''):
+    """T6b `//@item <file> struct|const <Name> [ensures ...]`: a struct / const item of a repo file, token for
+    token.  Dropped: attributes (`#[derive]`, `#[serde]`, `#[allow]`) and comments.  A const becomes
+    `exec const N: T ensures <given clause> { <initializer> }` (elided reference lifetimes in T spelled
+    `'static`, which is what they mean in a const); the ensures clause is PROVED against the initializer."""
+    path = os.path.join(REPO, rel)
+    if not os.path.exists(path):
+        raise Unsupported(f'@item: {rel} does not exist')
+    src = open(path, encoding='utf-8').read()
+    toks = tokenize(src)
+    s = sig(toks)
+    depth = 0
+    for idx, k in enumerate(s):
+        t = toks[k]
+        if t.kind == 'punct' and t.text in '([{':
+            depth += 1
+        elif t.kind == 'punct' and t.text in ')]}':
+            depth -= 1
+        if not (depth == 0 and t.kind == 'ident' and t.text == kind and idx + 1 < len(s)
+                and toks[s[idx + 1]].kind == 'ident' and toks[s[idx + 1]].text == name):
+            continue
+        j, d2 = idx + 2, 0          # end of the item: `;` or the `{..}` group at bracket depth 0
+        while True:
+            tt = toks[s[j]]
+            if tt.kind == 'punct' and tt.text in '([':
+                d2 += 1
+            elif tt.kind == 'punct' and tt.text in ')]':
+                d2 -= 1
+            elif tt.kind == 'punct' and tt.text == ';' and d2 == 0:
+                end = s[j]
+                break
+            elif tt.kind == 'punct' and tt.text == '{' and d2 == 0 and kind == 'struct':
+                end = match_close(toks, s[j])
+                break
+            j += 1
+        body, q = [], k
+        while q <= end:             # copy tokens; skip `#[...]` attributes and comments
+            tq = toks[q]
+            if tq.kind == 'punct' and tq.text == '#':
+                q2 = q + 1
+                while toks[q2].kind in ('ws', 'lcomment', 'bcomment'):
+                    q2 += 1
+                if toks[q2].text == '[':
+                    q = match_close(toks, q2) + 1
+                    continue
+            if tq.kind not in ('lcomment', 'bcomment'):
+                body.append(tq)
+            q += 1
+        line = src.count('\n', 0, t.start) + 1
+        head = f'// T6b: item taken from {rel}:{line} (attributes and comments dropped)\n'
+        if kind == 'struct':
+            txt = re.sub(r'\n\s*\n', '\n', ''.join(b.text for b in body))
+            return head + txt + '\n'
+        eq = next(i for i, b in enumerate(body) if b.kind == 'punct' and b.text == '=')
+        colon = next(i for i, b in enumerate(body) if b.kind == 'punct' and b.text == ':')
+        ty = ''
+        for i in range(colon + 1, eq):
+            ty += body[i].text
+            nxt = next((b for b in body[i + 1:eq] if b.kind != 'ws'), None)
+            if body[i].text == '&' and (nxt is None or nxt.kind != 'lifetime'):
+                ty += "'static "
+        init = ''.join(b.text for b in body[eq + 1:-1]).strip()
+        return head + f'exec const {name}: {ty.strip()}\n    {extra.strip()}\n{{ {init} }}\n'
+    raise Unsupported(f'@item: {kind} {name} not found in {rel}')
+
+
+ITEM_RE = re.compile(r'^[ \t]*//@item[ \t]+(\S+)[ \t]+(struct|const)[ \t]+(\w+)[ \t]*(.*)$', re.M)
 STUB_RE = re.compile(r'^[ \t]*//@stub[ \t]+(\w+)[ \t]+(\w+)[ \t]*$', re.M)
 DBSTRUCT_RE = re.compile(r'^[ \t]*//@dbstruct[ \t]+(.*)$', re.M)
 EXTRACT_RE = re.compile(r'/\*@\s*extract\s+(.*?)@\*/', re.S)
@@ -822,6 +963,7 @@ def generate(tmpl_path, out_path):
     text = expand_includes(raw)
     text = text.replace('"/repo/', '"' + REPO + '/')
     text = STUB_RE.sub(lambda m: gen_stub(m.group(1), m.group(2)), text)
+    text = ITEM_RE.sub(lambda m: gen_item(m.group(1), m.group(2), m.group(3), m.group(4)), text)
     text = DBSTRUCT_RE.sub(lambda m: '// T6: generated from src/fixtures/mod.rs\n' + gen_dbstruct(m.group(1).split()), text)
     pieces = []
     pos = 0
